@@ -68,7 +68,7 @@ def key_eq(structs, a, b):
 def obligation(prog, enums, structs, shape):
     """-> (failed list, exec, npaths)"""
     def find(name, nargs, hint):
-        fs = [f for f in prog.find(name, nargs) if hint in f.name and "{closure" not in f.name]
+        fs = [f for f in prog.find(name, nargs) if hint in f.name and "{closure" not in f.name and "isomer_erbium_verif" not in f.name]
         if len(fs) != 1:
             raise Unsupported(f"{name}/{nargs} not found uniquely ({[f.name for f in fs]})")
         return fs[0]
